@@ -593,7 +593,7 @@ register(
     xproc_is_violation=True,
     scenario_wall_factor=3,
     selftest_scale=20,
-    tiers={"quick": {"runs": 1500}, "thorough": {"runs": 100000}},
+    tiers={"quick": {"runs": 2400, "wall": 90}, "thorough": {"runs": 100000}},
     rule=("each scenario (machines dense in parallel regions and deep/shallow history) is executed 6 times: under 4 different salts of "
           "the StateNode hash (every set-iteration order is reachable by some salt) and twice with the unpatched address hash after "
           "perturbing the heap; the normalised traces (actions, guards, transitions, configurations, contexts) must be identical. In "
@@ -674,6 +674,8 @@ register(
               ("guards_always_sync", 1, gen_core("sync", 84, **dict(_C06, p_always=0.15))),
               # guards (also raising ones) on after candidates and on invoke onDone / onError lists
               ("guards_timers_services_sync", 2, gen_core("sync", 85, ops_kw={"p_adv": 0.3}, **dict(_C06, p_after=0.35, p_after_two=0.5, p_invoke=0.3, svc_kinds=("sync",)))),
+              # guarded candidates under wildcard / partial descriptors next to guarded exact ones
+              ("guards_wild_sync", 1, gen_core("sync", 87, p_wildcard=0.35, **_C06)), ("guards_wild_async", 1, gen_core("async", 88, p_wildcard=0.35, **_C06)),
               ("guards_timers_services_async", 2, gen_core("async", 86, ops_kw={"p_adv": 0.3}, **dict(_C06, p_after=0.35, p_after_two=0.5, p_invoke=0.3, svc_kinds=("coro", "sync"))))],
     oracle=O.oracle_c06,
     stats=O.stats_c06,
